@@ -176,6 +176,33 @@ func applyOp(t *ctree.Tree, o SOp, handle *ctree.Leaf, park func()) Res {
 			panic(err)
 		}
 		return Res{Kind: "leaves", Leaves: ls}
+	case "queryerr":
+		// Query whose visitor returns an error at its (V+1)-th call
+		n := int64(0)
+		var seen []LeafObs
+		errStop := fmt.Errorf("visitor says stop")
+		err := t.Query(o.P, func(path []string, _ *ctree.Leaf, val interface{}) error {
+			x, ok := val.(int64)
+			if !ok {
+				panic(fmt.Sprintf("visited a non-value %T", val))
+			}
+			seen = append(seen, LeafObs{P: cpPath(path), V: x})
+			if park != nil {
+				park()
+			}
+			n++
+			if n == o.V+1 {
+				return errStop
+			}
+			return nil
+		})
+		if err == nil {
+			return Res{Kind: "leaves", Leaves: seen} // fewer than V+1 leaves matched: it completed
+		}
+		if err != errStop {
+			panic(err)
+		}
+		return Res{Kind: "qerr"}
 	case "delete":
 		ps := t.Delete(o.P)
 		out := make([][]string, len(ps))
